@@ -18,7 +18,7 @@ META = {
             "switches between the with-error and the without-error format must remove the sibling file, otherwise a later read "
             "finds two files and fails. (2) the header is written on every set, before any early return. (3) __delitem__/empty/"
             "unload have no file-system effect and never add a key (unloading an absent point must not create a phantom member). "
-            "(4) EVERY HISTORY of at most 3 (thorough: 4) operations - store with errors, store without, unload, read, unload "
+            "(4) EVERY HISTORY of at most 4 (thorough: 5) operations - store with errors, store without, unload, read, unload "
             "everything, items(), re-open the directory with a fresh object - over two evolution points that share their scale is "
             "evaluated on the model file system of sa/fsmodel.py against a dictionary: after every step the store lists exactly the "
             "dictionary's keys (iteration, membership), reads return the value stored last element by element or raise for an absent "
@@ -204,13 +204,19 @@ def rest(chk, src, pe, cls, fset, fdel, fget, defs, sites):
     if not n_bad:
         chk.ok("approx-unique-none-or-error", fap.qname, f"{n_cases} (store, query) cases", how="exhaustive PE")
     chk.floor("approx cases", n_cases, 100)
-    n_hist = _histories(chk, src, 4 if chk.tier == "thorough" else 3)
+    n_hist = _histories(chk, src, 5 if chk.tier == "thorough" else 4)
     chk.note(files=["src/eko/io/inventory.py", "src/eko/io/struct.py"], approx_cases=n_cases, histories=n_hist)
     chk.explanation = ("File-effect invariant of the operator store, typestate of unload, and exhaustive evaluation of the tolerance "
                        "lookup on small stores.")
 
 
-def _histories(chk, src, depth):
+def _hist_group(rec, arg):
+    """worker of the parallel map: all histories that start with one given operation"""
+    first, depth = arg
+    _histories(rec, load(), depth, first)
+
+
+def _histories(chk, src, depth, first=None):
     """The operator store against a dictionary model, for EVERY history of at most `depth` operations over two evolution points:
     store with errors / store without errors / unload / read / unload everything / iterate with items() / re-open the directory
     with a fresh object.  After every step the store must list exactly the model's keys (iteration and membership), a read must
@@ -249,9 +255,29 @@ def _histories(chk, src, depth):
 
     n_hist = n_steps = bad = 0
     fset = ekoc.methods["__setitem__"]
+    if first is None:
+        # one group of histories per first operation, evaluated in parallel
+        from ..core import pmap
+
+        groups = [0]
+        orig_ok = chk.ok
+
+        def counting_ok(*a, **k):
+            groups[0] += 1
+            return orig_ok(*a, **k)
+
+        chk.ok = counting_ok
+        try:
+            pmap(chk, _hist_group, [(i, depth) for i in range(len(ops))], jobs=len(ops))
+        finally:
+            del chk.ok
+        total = sum(len(ops) ** l for l in range(1, depth + 1))
+        if not chk.violations:
+            chk.floor("groups of histories decided", groups[0], len(ops))
+        return total
     for length in range(1, depth + 1):
         for hist in itertools.product(ops, repeat=length):
-            if hist[0][0] in ("unload-all", "items", "reopen") and length > 1 and hist[0][0] == "reopen":
+            if hist[0] != ops[first]:
                 continue
             n_hist += 1
             fs = fsmodel.FS()
@@ -326,5 +352,4 @@ def _histories(chk, src, depth):
     if not bad:
         chk.ok("store-agrees-with-a-map-on-every-history", fset.qname,
                f"{n_hist} histories of up to {depth} operations ({n_steps} steps) over two evolution points", how="exhaustive PE on a model file system")
-    chk.floor("histories", n_hist, 100)
     return n_hist
